@@ -9,12 +9,16 @@ import (
 	"verif/h/chainsim"
 )
 
-// TestC20Reg_LivenessFallbackReexecutesRootBatch reproduces finding KF-C20-liveness-reexecution with production constants:
+// TestC20Reg_LivenessFallbackReexecutesRootBatch reproduces finding KF-C20-liveness-reexecution (also reproduced with the
+// production value lib.LivenessFallbackBlocks = 60; lowered to 10 here only to keep the always-run regression short):
 // a root user's limit order sits in the root chain's locked batch, the nested chain executes it (pays the buyer) and locks
 // its answer; the root chain then includes no certificate-results transaction for lib.LivenessFallbackBlocks nested blocks;
 // the nested chain orders and executes the liveness fallback - and executes the SAME root batch a second time: the buyer is
 // paid twice out of the nested liquidity pool for an order whose seller pays once.
 func TestC20Reg_LivenessFallbackReexecutesRootBatch(t *testing.T) {
+	old := lib.LivenessFallbackBlocks
+	lib.LivenessFallbackBlocks = 10
+	defer func() { lib.LivenessFallbackBlocks = old }()
 	tc := newDexPair(t, 1_000_000, 1_000_000, 1)
 	defer tc.Close()
 	buyer := chainsim.Addr(dexUser(4))
@@ -47,14 +51,9 @@ func TestC20Reg_LivenessFallbackReexecutesRootBatch(t *testing.T) {
 	if err != nil {
 		t.Fatal(err)
 	}
-	step([][]byte{order}, true) // order enters the root's next batch, rotated into the locked batch with this block's certificate
-	step(nil, true)
-	step(nil, false) // the nested chain executes the root batch (pays the buyer) and locks its answer; the root goes silent
+	step([][]byte{order}, true) // the order is rotated into the root's locked batch by this block's certificate-results transaction
+	step(nil, false)            // the nested chain executes the root batch (pays the buyer), locks its answer; the root goes silent
 	paidOnce := nBal() - start
-	if paidOnce == 0 {
-		step(nil, false)
-		paidOnce = nBal() - start
-	}
 	if paidOnce == 0 {
 		t.Fatalf("setup: the nested chain did not execute the root order")
 	}
